@@ -867,6 +867,10 @@ _TRIM = {
     "C17": ("ro_", "op_", "cont_", "copy_", "enc_", "ser_uint", "ser_negint", "ser_float", "ser_def", "ser_indef", "ser_tag",
             "ser_map", "ser_array", "stack_"),
 }
+# the three map lemma proofs are by far the most expensive ones (6-13 min, 11-15 GB): they run only for the properties
+# whose statement they carry (their safety / allocator-discipline obligations are not needed to decide C01 / C13 / C17 ...:
+# the same code shapes are covered for those by the array and chunk-table proofs)
+_HEAVY_ONLY = {"decref_map_lemma": {"C04"}, "ser_map_lemma": {"C03", "C07"}, "append_map": {"C02", "C14", "C04", "C06"}}
 for _p in PROOFS:
     for _pid, _prefixes in _TRIM.items():
         if _pid in _p["props"] and _p["name"].startswith(_prefixes):
@@ -1045,3 +1049,10 @@ P(name="decref_map_lemma", props={"C04": ["loop"], "C13": [], "C01": SAFETY + ["
   defines=["KIND_MAP", "VERIF_FIXED_NODES"], enforce=None, also_verified=["cbor_decref"], twins={"cbor_decref": "cbor_decref__child"},
   replace=["cbor_decref__child"], loops="loops/decref.json", loop_fingerprint={"cbor_decref": 4},
   must_exist=[r"cbor_decref\.loop_invariant_step\.\d+"], min_covers=2, cost=200, timeout=900, object_bits=10, mem_gb=20)
+
+# final pass (all proofs registered): restrict the heavy map lemma proofs to their own properties
+for _p in PROOFS:
+    if _p["name"] in _HEAVY_ONLY:
+        for _pid in list(_p["props"]):
+            if _pid not in _HEAVY_ONLY[_p["name"]]:
+                del _p["props"][_pid]
